@@ -1588,9 +1588,15 @@ func (fv *FV) callMods(call *ast.CallExpr, ms *modSet, depth int) {
 					ms.addBase("chan.closed", nil)
 					continue
 				}
+				// `recv.field` of the callee's receiver, called on a plain identifier: only
+				// that object's cell changes
+				var baseID *ast.Ident
+				if id, isId := sel.X.(SIdent); isId && c.Recv != "" && len(c.Params) > 0 && id.Name == c.Params[0] && recvExpr != nil {
+					baseID, _ = unparen(recvExpr).(*ast.Ident)
+				}
 				for _, k := range fv.w.keysForFieldName(sel.Sel) {
 					ms.heap[k] = true
-					ms.addBase(k, nil)
+					ms.addBase(k, baseID)
 				}
 			}
 		}
